@@ -134,6 +134,9 @@ func TestCheck(t *testing.T) {
 		c.FailAt = rapid.IntRange(-1, total-1).Draw(t, "fail")
 		c.Style = rapid.IntRange(0, 2).Draw(t, "style")
 		c.FailKind = rapid.SampledFrom([]int{0, 0, 1, 2}).Draw(t, "failkind")
+		if c.Dev == "libsql-lookalike" && c.FailKind == 2 {
+			c.FailKind = 0 // the two recorded findings are kept apart: this dev database is not refused, so the replay runs on it
+		}
 		if strings.HasPrefix(c.Cmd, "migrate-") && rapid.IntRange(0, 2).Draw(t, "withckpt") == 0 {
 			c.Ckpt = rapid.IntRange(1, len(c.Files)).Draw(t, "ckpt")
 			c.Latest = rapid.IntRange(1, len(c.Files)).Draw(t, "latest")
